@@ -94,6 +94,8 @@ type vfE2Chan struct {
 	fannedN  uint64
 	lastAtt  map[int]int
 	holder   map[int]int
+	nReq     uint64 // accepted REQs (harness books)
+	nTimeout uint64 // timeouts seen by the harness's scans
 }
 
 type vfE2Topic struct {
@@ -629,10 +631,24 @@ func (h *vfE2H) dumpLine(ch *vfE2Chan) string {
 			atomic.LoadUint64(&c.MessageCount), atomic.LoadUint64(&c.FinishCount), atomic.LoadUint64(&c.RequeueCount),
 			vfE2B(atomic.LoadInt32(&c.State) == stateClosing)))
 	}
+	// direct oracle (C13.1): the channel counters by the harness's own books
+	if mc, rq, to := atomic.LoadUint64(&rc.messageCount), atomic.LoadUint64(&rc.requeueCount), atomic.LoadUint64(&rc.timeoutCount); mc != ch.fannedN+uint64(h.pendingFor(ch)) || rq != ch.nReq || to != ch.nTimeout {
+		h.fail("chan-count", "%s/%s reports message_count=%d requeue_count=%d timeout_count=%d; %d messages were fanned out to it, %d REQs accepted, %d timeouts",
+			fmt.Sprintf("t%d", ch.t), ch.name, mc, rq, to, ch.fannedN+uint64(h.pendingFor(ch)), ch.nReq, ch.nTimeout)
+	}
 	return fmt.Sprintf("depth=%d inflight=[%s] deferred=[%s] mc=%d rq=%d to=%d paused=%s clients=[%s]",
 		rc.Depth(), strings.Join(ifs, " "), strings.Join(dfs, " "),
 		atomic.LoadUint64(&rc.messageCount), atomic.LoadUint64(&rc.requeueCount), atomic.LoadUint64(&rc.timeoutCount),
 		vfE2B(rc.IsPaused()), strings.Join(cls, " "))
+}
+
+// publishes acknowledged but not yet reported as fanned out (dumpLine may run before observe)
+func (h *vfE2H) pendingFor(ch *vfE2Chan) int {
+	tp := h.topics[ch.t]
+	if tp == nil || tp.paused || len(tp.chans) == 0 {
+		return 0
+	}
+	return len(tp.pending)
 }
 
 func (h *vfE2H) dump(ch *vfE2Chan) {
